@@ -33,6 +33,8 @@ class Event:
             return f"{self.name}({', '.join(a)})"
         if self.kind == "store":
             return f"{self.name} = {render(self.value)[:70]}"
+        if self.kind == "elemstore":
+            return f"{self.name}[{render(self.args[0])[:40]}] = {render(self.value)[:60]}"
         return f"{self.kind} {render(self.value)[:200]}"
 
 
@@ -70,6 +72,12 @@ class _UpdateMachine(Machine):
             if base == Opaque("self"):
                 self.self_state[t.attr] = v
                 self.trace.events.append(Event("store", f"self.{t.attr}", value=v, node=t))
+                return
+        if isinstance(t, ast.Subscript):
+            base = self.ev(t.value)
+            if isinstance(base, Opaque):          # element store into an array: psi[idx] = ...
+                idx = None if isinstance(t.slice, ast.Slice) else self.ev(t.slice)
+                self.trace.events.append(Event("elemstore", base.text, args=[idx], value=v, node=t))
                 return
         super().assign(t, v)
 
